@@ -28,7 +28,8 @@ Import ListNotations.
 Open Scope Q_scope.
 '''
 
-FLOAT_KEYS = {'cmin', 'cmax', 'cMin', 'cMax'}
+FLOAT_KEYS = {'cmin', 'cmax', 'cMin', 'cMax', 't'}
+UNMODELLED = ('EnableRecording', 'LoadRecorded')     # recording layer: no Gallina model, the oracle decides
 LIST_KEYS = {'newN', 'vals', 'data', 'N', 'w'}
 
 
@@ -43,11 +44,74 @@ LIST_KEYS = {'newN', 'vals', 'data', 'N', 'w'}
 ADAPTIVE = '_c08_harness_adaptive'
 
 
-def new_pbm(cfg):
+ARGS = '_c08_harness_args'
+BYST = '_c08_harness_bystander'
+
+
+def conv_value(v, conv):
+    """the same number as the objects a caller may hold it in"""
+    if conv == 'np64':
+        return np.float64(v)
+    if conv == '0d':
+        return np.array(float(v))           # 0-d array: mutable, `x += d` works in place
+    if conv == 'int' and float(v) == int(v):
+        return int(v)
+    return float(v)
+
+
+def keep_arg(p, name, obj):
+    """argument objects stay the caller's: remembered with their value and checked after every operation"""
+    getattr(p, ARGS).append((name, obj, float(obj)))
+
+
+def build_pbm(cfg, args):
     from kawin.precipitation.PopulationBalance import PopulationBalanceModel
-    p = PopulationBalanceModel(cfg['cMin'], cfg['cMax'], cfg['bins'], cfg['minBins'], cfg['maxBins'])
+    ib = (lambda n: np.int64(n)) if cfg.get('conv') == 'np64' else int
+    if cfg.get('kw'):
+        p = PopulationBalanceModel(cMin=args[0], cMax=args[1], bins=ib(cfg['bins']), minBins=ib(cfg['minBins']), maxBins=ib(cfg['maxBins']))
+    else:
+        p = PopulationBalanceModel(args[0], args[1], ib(cfg['bins']), ib(cfg['minBins']), ib(cfg['maxBins']))
     setattr(p, ADAPTIVE, True)
+    setattr(p, ARGS, [])
+    setattr(p, BYST, None)
+    keep_arg(p, 'constructor cMin', args[0])
+    keep_arg(p, 'constructor cMax', args[1])
     return p
+
+
+def new_pbm(cfg):
+    """cfg['conv']: how the caller holds the numbers (float / np64 / 0d / int); cfg['kw']: keyword call;
+    cfg['bystander']: a second object built from the SAME argument objects stays alive and untouched next to the one
+    that is operated on - it must not notice"""
+    conv = cfg.get('conv', 'float')
+    args = (conv_value(cfg['cMin'], conv), conv_value(cfg['cMax'], conv))
+    p = build_pbm(cfg, args)
+    if cfg.get('bystander'):
+        b = build_pbm(cfg, args)
+        setattr(p, BYST, (b, core_snap(b)))
+    return p
+
+
+def side_effects(p):
+    """(argument that changed, bystander that changed) after an operation - None when nothing did"""
+    arg = None
+    for name, obj, val in getattr(p, ARGS):
+        try:
+            now = float(obj)
+        except Exception:
+            now = None
+        if now != val:
+            arg = '%s was %r, is now %r' % (name, val, now)
+            break
+    by = None
+    if getattr(p, BYST) is not None:
+        b, s0 = getattr(p, BYST)
+        s1 = core_snap(b)
+        diff = [k for k in s0 if s0[k] != s1[k]]
+        if diff:
+            by = 'a second, untouched object changed in %s (e.g. %s: %r -> %r)' % (', '.join(diff), diff[0],
+                  s0[diff[0]] if not isinstance(s0[diff[0]], list) else s0[diff[0]][-1], s1[diff[0]] if not isinstance(s1[diff[0]], list) else s1[diff[0]][-1])
+    return arg, by
 
 
 def observe_backup(p):
@@ -65,9 +129,18 @@ def observe_backup(p):
         return [], [], '%s: %s' % (type(e).__name__, e)
 
 
+def core_snap(p):
+    return {'min': float(p.min), 'max': float(p.max), 'bins': int(p.bins),
+            'psd': [float(x) for x in np.ravel(p.PSD)], 'bounds': [float(x) for x in np.ravel(p.PSDbounds)],
+            'size': [float(x) for x in np.ravel(p.PSDsize)],
+            'omin': float(p.originalMin), 'omax': float(p.originalMax), 'obins': int(p.originalBins)}
+
+
 def snap(p):
     ppsd, pbounds, rerr = observe_backup(p)
-    return {'min': float(p.min), 'max': float(p.max), 'bins': int(p.bins),
+    argc, byc = side_effects(p)
+    return {'arg_changed': argc, 'bystander_changed': byc,
+            'min': float(p.min), 'max': float(p.max), 'bins': int(p.bins),
             'psd': [float(x) for x in np.ravel(p.PSD)], 'bounds': [float(x) for x in np.ravel(p.PSDbounds)],
             'size': [float(x) for x in np.ravel(p.PSDsize)],
             'ppsd': ppsd, 'pbounds': pbounds, 'revert_error': rerr,
@@ -87,18 +160,37 @@ def apply_op(p, op):
     op = dict(op)
     ret, err, extra = None, None, None
     try:
+        v = op.get('call', 'pos')
         if k == 'Reset':
-            p.reset(op['rb'])
+            p.reset() if (v == 'short' and op['rb']) else p.reset(resetBounds=op['rb']) if v == 'kw' else p.reset(op['rb'])
         elif k == 'Add':
-            p.addSizeClasses(op['k'])
+            p.addSizeClasses() if (v == 'short' and op['k'] == 1) else p.addSizeClasses(bins=np.int64(op['k'])) if v == 'kw' else p.addSizeClasses(op['k'])
         elif k == 'Change':
-            p.changeSizeClasses(op['cmin'], op['cmax'], op['nb'], op['reset'])
+            a, b_ = conv_value(op['cmin'], op.get('conv', 'float')), conv_value(op['cmax'], op.get('conv', 'float'))
+            keep_arg(p, 'changeSizeClasses cMin', a)
+            keep_arg(p, 'changeSizeClasses cMax', b_)
+            call = op.get('call', 'pos')
+            if call == 'kw':
+                p.changeSizeClasses(cMin=a, cMax=b_, bins=op['nb'], resetPSD=op['reset'])
+            elif call == 'short' and op['nb'] is None and not op['reset']:
+                p.changeSizeClasses(a, b_)                       # optional arguments omitted
+            elif call == 'mixed':
+                p.changeSizeClasses(a, b_, resetPSD=op['reset'], bins=op['nb'])
+            else:
+                p.changeSizeClasses(a, b_, op['nb'], op['reset'])
         elif k == 'Adjust':
-            ch, ni = p.adjustSizeClassesEuler(op['chk'])
+            ch, ni = p.adjustSizeClassesEuler() if (v == 'short' and not op['chk']) else \
+                p.adjustSizeClassesEuler(checkDissolution=op['chk']) if v == 'kw' else p.adjustSizeClassesEuler(op['chk'])
             ret = (bool(ch), None if ni is None else int(ni))
         elif k == 'Update':
             op['newN'] = fit(op['newN'], p.bins)
-            p.UpdatePBMEuler(0.0, np.array(op['newN'], dtype=float))
+            p.UpdatePBMEuler(float(op.get('t', 0.0)), np.array(op['newN'], dtype=float))
+        elif k == 'EnableRecording':
+            p.enableRecording()
+        elif k == 'LoadRecorded':
+            import io, contextlib
+            with contextlib.redirect_stdout(io.StringIO()):
+                p.setPSDtoRecordedTime(conv_value(op['t'], op.get('conv', 'float')))
         elif k == 'Backup':
             p.createBackup()
         elif k == 'Revert':
@@ -108,7 +200,10 @@ def apply_op(p, op):
             vals = np.array(op['vals'], dtype=float)
             p.LoadDistributionFunction(lambda r: vals.copy())
         elif k == 'LoadHist':
-            p.LoadDistribution(np.array(op['data'], dtype=float))
+            data = list(op['data']) if v == 'short' else tuple(op['data']) if v == 'kw' else np.array(op['data'], dtype=float)
+            p.LoadDistribution(data)
+            if list(np.ravel(np.asarray(data, dtype=float))) != list(op['data']):
+                raise AssertionError('LoadDistribution changed the data it was given')
         elif k == 'SetAdaptive':
             p.setAdaptiveBinSize(op['a'])
             setattr(p, ADAPTIVE, bool(op['a']))
@@ -201,10 +296,19 @@ def own_linspace(a, b, n):
     return [a + i * (b - a) / n for i in range(n)] + [b]
 
 
-def oracle_step(pre, op, post, ret, err, extra):
-    """list of (clause, cls, message) for one observed transition"""
+def oracle_step(pre, op, post, ret, err, extra, init=None):
+    """list of (clause, cls, message) for one observed transition; init = the state right after construction"""
     v = []
     k = op['op']
+    init = init or pre
+    if post.get('arg_changed') and not pre.get('arg_changed'):
+        v.append(('arguments_unchanged', 'scalar argument', 'after %s an argument object of the caller changed: %s' % (k, post['arg_changed'])))
+    if post.get('bystander_changed') and not pre.get('bystander_changed'):
+        v.append(('instances_independent', 'second object', 'after %s on one object, %s' % (k, post['bystander_changed'])))
+    if (post['omin'], post['omax'], post['obins']) != (init['omin'], init['omax'], init['obins']) and \
+            (pre['omin'], pre['omax'], pre['obins']) == (init['omin'], init['omax'], init['obins']):
+        v.append(('reset_restores', 'initial grid record', 'after %s the recorded initial grid (originalMin, originalMax, originalBins) is %r, the constructor set %r'
+                  % (k, (post['omin'], post['omax'], post['obins']), (init['omin'], init['omax'], init['obins']))))
     if k == 'Moments':
         if err:
             return v
@@ -235,13 +339,13 @@ def oracle_step(pre, op, post, ret, err, extra):
         v.append(('consistent', 'revert raises', 'after %s a revert() raises %s' % (k, post['revert_error'])))
     if k == 'Reset' and op['rb'] and not err:
         # reset restores the initial grid (checked on its own, also when the result is not even consistent)
-        exp = own_linspace(pre['omin'], pre['omax'], pre['obins'])
-        if (post['min'], post['max'], post['bins']) != (pre['omin'], pre['omax'], pre['obins']) \
+        exp = own_linspace(init['omin'], init['omax'], init['obins'])
+        if (post['min'], post['max'], post['bins']) != (init['omin'], init['omax'], init['obins']) \
            or len(post['bounds']) != len(exp) or any(abs(x - y) > 1e-13 * abs(y) for x, y in zip(post['bounds'], exp)) \
            or any(x != 0 for x in post['psd']):
             v.append(('reset_restores', 'grid', 'reset gives %d classes with boundaries %r .. %r, min/max %r/%r (PSD total %r); the initial grid has %d classes on [%r, %r]'
                       % (post['bins'], post['bounds'][0] if post['bounds'] else None, post['bounds'][-1] if post['bounds'] else None,
-                         post['min'], post['max'], sum(post['psd']), pre['obins'], pre['omin'], pre['omax'])))
+                         post['min'], post['max'], sum(post['psd']), init['obins'], init['omin'], init['omax'])))
     bad = consistent(post)
     if bad:
         v.append(('consistent', k, 'after %s: %s' % (k, bad)))
@@ -275,7 +379,7 @@ def oracle_trace(trace):
     if trace and trace[0][0].get('revert_error'):
         out.append((0, 'consistent', 'revert raises', 'on a new object revert() raises %s' % trace[0][0]['revert_error']))
     for i, (pre, op, post, ret, err, extra) in enumerate(trace):
-        for h in oracle_step(pre, op, post, ret, err, extra):
+        for h in oracle_step(pre, op, post, ret, err, extra, init=trace[0][0]):
             out.append((i,) + h)
     return out
 
@@ -290,6 +394,13 @@ def tie_bins(rng, bins, mb, xb):
     return mb if u < 0.2 else xb if u < 0.35 else bins
 
 
+def gen_conv(rng):
+    """how the constructor is called: number objects (python float / numpy scalar / 0-d array / int), keyword or positional,
+    and whether a second object built from the same argument objects lives alongside"""
+    return {'conv': str(rng.choice(['float', 'np64', '0d', 'int'], p=[0.3, 0.2, 0.35, 0.15])), 'kw': bool(rng.random() < 0.4),
+            'bystander': bool(rng.random() < 0.5)}
+
+
 def gen_cfg(rng, quick):
     if rng.random() < 0.4:
         cmin = float(rng.choice([0, 1, 2, 4, 0.5]))
@@ -298,7 +409,7 @@ def gen_cfg(rng, quick):
         mb = int(rng.choice([2, 4, 8]))
         xb = mb * int(rng.choice([1, 2, 4]))
         bins = tie_bins(rng, bins, mb, xb)
-        return {'kind': 'dyadic', 'cMin': cmin, 'cMax': cmax, 'bins': bins, 'minBins': mb, 'maxBins': xb}
+        return {'kind': 'dyadic', 'cMin': cmin, 'cMax': cmax, 'bins': bins, 'minBins': mb, 'maxBins': xb, **gen_conv(rng)}
     cmin = float(10 ** rng.uniform(-10.5, -8.5))
     cmax = cmin * float(10 ** rng.uniform(0.0, 2.0))
     top = 40 if quick else 100
@@ -306,7 +417,7 @@ def gen_cfg(rng, quick):
     mb = int(rng.integers(2, 17 if quick else 41))
     xb = mb + int(rng.integers(0, 25 if quick else 61))
     bins = tie_bins(rng, bins, mb, xb)
-    return {'kind': 'physical', 'cMin': cmin, 'cMax': cmax, 'bins': bins, 'minBins': mb, 'maxBins': xb}
+    return {'kind': 'physical', 'cMin': cmin, 'cMax': cmax, 'bins': bins, 'minBins': mb, 'maxBins': xb, **gen_conv(rng)}
 
 
 def gen_psd(rng, st, dyadic):
@@ -401,17 +512,17 @@ def gen_op_(rng, st, dyadic, quick):
     if k == 'Add' and n > cap:
         k = 'Change'
     if k == 'Adjust':
-        return {'op': k, 'chk': bool(rng.random() < 0.6)}
+        return {'op': k, 'chk': bool(rng.random() < 0.6), 'call': str(rng.choice(['pos', 'kw', 'short']))}
     if k == 'Update':
         return {'op': k, 'newN': gen_step_result(rng, st, dyadic)}
     if k == 'LoadFn':
         return {'op': k, 'vals': gen_psd(rng, st, dyadic)}
     if k == 'Add':
-        return {'op': k, 'k': int(rng.choice([0, 1, 2, 3, 5, 8, int(rng.integers(0, 13))]))}
+        return {'op': k, 'k': int(rng.choice([0, 1, 1, 2, 3, 5, 8, int(rng.integers(0, 13))])), 'call': str(rng.choice(['pos', 'kw', 'short']))}
     if k == 'Backup' or k == 'Revert':
         return {'op': k}
     if k == 'Reset':
-        return {'op': k, 'rb': bool(rng.random() < 0.6)}
+        return {'op': k, 'rb': bool(rng.random() < 0.6), 'call': str(rng.choice(['pos', 'kw', 'short']))}
     if k == 'SetAdaptive':
         return {'op': k, 'a': bool(rng.random() < 0.5)}
     if k == 'LoadHist':
@@ -419,7 +530,7 @@ def gen_op_(rng, st, dyadic, quick):
         lo, hi = st['min'], st['max']
         data = list(rng.uniform(lo - 0.1 * (hi - lo), hi + 0.1 * (hi - lo), m))
         data += [float(x) for x in rng.choice(st['bounds'], int(rng.integers(0, 5)))]
-        return {'op': k, 'data': [float(x) for x in data]}
+        return {'op': k, 'data': [float(x) for x in data], 'call': str(rng.choice(['pos', 'kw', 'short']))}
     if k == 'Moments':
         N = gen_psd(rng, st, dyadic)
         w = [float(x) for x in (rng.integers(0, 5, n).astype(float) if dyadic else rng.uniform(0, 3, n))]
@@ -462,7 +573,8 @@ def gen_op_(rng, st, dyadic, quick):
         nb = int(rng.choice([1, 2, 3, int(rng.integers(1, 41)), st['minBins'], st['maxBins'], max(1, n // 3), min(cap, 2 * n)]))
     if nb is not None and nb > cap:
         nb = cap
-    return {'op': k, 'cmin': float(cmin), 'cmax': float(cmax), 'nb': nb, 'reset': bool(rng.random() < 0.1)}
+    return {'op': k, 'cmin': float(cmin), 'cmax': float(cmax), 'nb': nb, 'reset': bool(rng.random() < 0.1),
+            'conv': str(rng.choice(['float', 'np64', '0d', 'int'])), 'call': str(rng.choice(['pos', 'kw', 'short', 'mixed']))}
 
 
 def gen_sequence(rng, quick, length):
@@ -488,6 +600,78 @@ def gen_sequence(rng, quick, length):
         post = snap(p)
         grid_changed = pre['bounds'] != post['bounds']
         trace.append((pre, op2, post, ret, err, extra))
+    return cfg, trace
+
+
+def gen_recorded_sequence(rng, quick):
+    """The way the precipitation model uses the class: recording on, then per iteration UpdatePBMEuler(t, N) (which records)
+    followed by adjustSizeClassesEuler - distributions that fill the last class (extension, and coarsening once the class
+    count exceeds maxBins) or sit in the lowest classes (refinement) - and afterwards "load": setPSDtoRecordedTime(t) for t
+    before / at / between / after the recorded times (between records on the same grid, bracketing an extension, a
+    coarsening, a refinement), each followed by ordinary grid operations on the loaded state."""
+    cfg = gen_cfg(rng, quick)
+    if rng.random() < 0.6:                      # small class-count window: re-meshes happen within a few iterations
+        cfg['minBins'] = int(rng.choice([2, 4, 6, 8]))
+        cfg['maxBins'] = cfg['minBins'] * int(rng.choice([2, 3]))
+        cfg['bins'] = int(rng.choice([cfg['minBins'], cfg['maxBins'], int(rng.integers(cfg['minBins'], cfg['maxBins'] + 1))]))
+    dyadic = cfg['kind'] == 'dyadic'
+    cfg['kind'] = 'recorded'
+    p = new_pbm(cfg)
+    trace = []
+    clock = [0.0]
+
+    def do(op):
+        pre = snap(p)
+        op2, ret, err, extra = apply_op(p, op)
+        trace.append((pre, op2, snap(p), ret, err, extra))
+
+    do({'op': 'EnableRecording'})
+    if rng.random() < 0.25:
+        do({'op': 'SetAdaptive', 'a': False})
+    times = [0.0]
+    counts = [cfg['bins']]
+    for _ in range(int(rng.integers(4, 13))):
+        st = snap(p)
+        n = st['bins']
+        mode = rng.choice(['grow', 'grow', 'shrink', 'any'])
+        if mode == 'grow':
+            q = np.array(gen_psd(rng, st, dyadic))
+            q[-1] = float(rng.choice([2, 5, 1e6]))
+        elif mode == 'shrink':
+            q = np.zeros(n)
+            m = max(1, min(n, st['minBins'] // 4 + 1))
+            q[:m] = 64.0 if dyadic else 10 ** rng.uniform(1, 9)
+        else:
+            q = np.array(gen_step_result(rng, st, dyadic))
+        clock[0] += float(rng.choice([1.0, 0.5, 2.0])) if dyadic else float(10 ** rng.uniform(-2, 2))
+        times.append(clock[0])
+        do({'op': 'Update', 'newN': [float(x) for x in q], 't': clock[0]})
+        counts.append(trace[-1][2]['bins'])          # class count of this record
+        do({'op': 'Adjust', 'chk': bool(mode == 'shrink' or rng.random() < 0.2)})
+    for _ in range(int(rng.integers(2, 6))):
+        u = rng.random()
+        # records between which the grid changed (extension / coarsening / refinement) are the interesting brackets
+        moved = [i for i in range(len(counts) - 1) if counts[i] != counts[i + 1]]
+        if u < 0.6 and len(times) > 1:
+            i = int(rng.choice(moved)) if (moved and rng.random() < 0.7 and len(counts) == len(times)) else int(rng.integers(0, len(times) - 1))
+            t = times[i] + (times[i + 1] - times[i]) * float(rng.choice([0.5, 0.25, 0.75, rng.uniform(0.01, 0.99)]))
+        elif u < 0.75:
+            t = times[int(rng.integers(0, len(times)))]
+        elif u < 0.87:
+            t = times[0] - 1.0
+        else:
+            t = times[-1] + 1.0
+        do({'op': 'LoadRecorded', 't': float(t), 'conv': str(rng.choice(['float', 'np64', '0d']))})
+        for _ in range(int(rng.integers(1, 4))):
+            st = snap(p)
+            op = gen_op(rng, st, dyadic, quick)
+            if op['op'] == 'Update':
+                clock[0] += 1.0
+                times.append(clock[0])
+                op['t'] = clock[0]
+            do(op)
+            if op['op'] == 'Update':
+                counts.append(trace[-1][2]['bins'])
     return cfg, trace
 
 
@@ -785,7 +969,7 @@ def report_hits(ctx, found):
 def nontrivial_step(pre, op, post):
     """a step is non-trivial when it acts on a populated distribution or changes the grid"""
     return any(x > 0 for x in pre['psd']) or pre['bins'] != post['bins'] or pre['bounds'] != post['bounds'] \
-        or op['op'] in ('Update', 'LoadFn', 'LoadHist', 'Moments')
+        or op['op'] in ('Update', 'LoadFn', 'LoadHist', 'Moments', 'LoadRecorded')
 
 
 def explore(ctx, seqs, label, ship=None, shard=None):
@@ -820,6 +1004,9 @@ def explore(ctx, seqs, label, ship=None, shard=None):
                 continue
             if not (finite_state(pre) and finite_state(post)):
                 dis_all.append((cfg, ops[:ti + 1], 'non-finite value in the state after %s' % op['op']))
+                continue
+            if op['op'] in UNMODELLED:
+                ctx.notes['oracle_only_steps'] = ctx.notes.get('oracle_only_steps', 0) + 1
                 continue
             if ship is not None and not ship(pre, op, post):
                 ctx.notes['oracle_only_steps'] = ctx.notes.get('oracle_only_steps', 0) + 1
@@ -872,8 +1059,10 @@ def explore_runs(ctx, seqs, label, ties):
         terms.append('checkRun %s %s [] %s' % (RT, cfg_lit(cfg), post_lit(first, None, None)))
         where.append((si, 0))
         state_ops = [t for t in trace if t[1]['op'] != 'Moments']
+        if any(t[1]['op'] in UNMODELLED for t in trace):
+            state_ops = []
         m = min(len(state_ops), 8)
-        if cfg['kind'] != 'physical' and si not in ties and m > 0 and run_eligible(state_ops[:m]) \
+        if cfg['kind'] in ('dyadic', 'corpus') and si not in ties and m > 0 and run_eligible(state_ops[:m]) \
                 and max(t[2]['bins'] for t in state_ops[:m]) <= 24:
             terms.append('checkRun %s %s [%s] %s' % (RT, cfg_lit(cfg), '; '.join(op_lit(t[1]) for t in state_ops[:m]),
                                                     post_lit(state_ops[m - 1][2], None, None)))
@@ -907,7 +1096,7 @@ def run(ctx):
     corpus = []
     for cfg, ops in corpus_sequences():
         corpus.append((cfg, run_sequence(cfg, ops)))
-    nseq, length = (36, 40) if quick else (40, 400)
+    nseq, length = (30, 40) if quick else (40, 400)
     seqs = list(corpus)
     for i in range(nseq):
         L = int(ctx.rng.integers(3, length + 1)) if not quick else int(ctx.rng.choice([6, 12, 24, 40]))
@@ -928,6 +1117,12 @@ def run(ctx):
     dis += dis_f
     found += found_f
     seqs += fine
+    # recorded runs + "load" of a recorded time (update / adjust as the precipitation model drives them)
+    rec = [gen_recorded_sequence(ctx.rng, quick) for _ in range(14 if quick else 120)]
+    dis_r, found_r, _ = explore(ctx, rec, 'rec')
+    dis += dis_r + explore_runs(ctx, rec, 'rec', set())
+    found += found_r
+    seqs += rec
     for cfg, trace in seqs[:3] + seqs[len(corpus):len(corpus) + 2]:
         ctx.sample({'cfg': {k: cfg[k] for k in ('kind', 'cMin', 'cMax', 'bins', 'minBins', 'maxBins')},
                     'operations': [readable({k: (v if not isinstance(v, list) or len(v) <= 6 else v[:6] + ['...'])
